@@ -28,7 +28,7 @@ func (c *CRLRevocationChecker) IsRevoked(clientCertificate *x509.Certificate, ve
 	var locations *core.CRLLocations
 
 	if len(clientCertificate.CRLDistributionPoints) > 0 {
-		chains := core.NewCertificateChains(verifiedChains, c.crlConfig.TrustedSignatureCerts)
+		chains := core.NewCertificateChains(issuerChains(verifiedChains), c.crlConfig.TrustedSignatureCerts)
 		locations = &core.CRLLocations{CRLDistributionPoints: clientCertificate.CRLDistributionPoints}
 		added, err := c.crlRepository.AddCRL(locations, chains)
 		if err != nil {
@@ -43,6 +43,20 @@ func (c *CRLRevocationChecker) IsRevoked(clientCertificate *x509.Certificate, ve
 
 	revoked, err := c.crlRepository.IsRevoked(clientCertificate, locations)
 	return revoked, err
+}
+
+// issuerChains returns the verified chains without the end entity certificate,
+// the certificate which is checked is never entitled to sign the CRL it is checked against
+func issuerChains(verifiedChains [][]*x509.Certificate) [][]*x509.Certificate {
+	chains := make([][]*x509.Certificate, 0, len(verifiedChains))
+	for _, verifiedChain := range verifiedChains {
+		if len(verifiedChain) > 1 {
+			chains = append(chains, verifiedChain[1:])
+		} else {
+			chains = append(chains, verifiedChain)
+		}
+	}
+	return chains
 }
 
 func (c *CRLRevocationChecker) Provision(crlConfig *config.CRLConfig, logger *zap.Logger) error {
